@@ -21,7 +21,7 @@ rand    `-` or `<seed>:<d,d,…>` raw Int63 draws of math/rand after Seed(seed)
         at the backend, `q` a request arrives and completes, `f<k>` the k-th held request (0-based) completes.
         answer `<o>,<o>,… c=<counter|-> n=<in-flight per address|->`, o = address index | `503` | `ok` | `-`
 
-answer  `<r>,<r>,… c=<counter|-> a=<availability bits|->`, r = `nil` | `<i>` | `<i>+ck<id>` | `panic:idx` | `panic:div` | `panic:nil`;
+answer  `<r>,<r>,… c=<counter|-> a=<availability bits|->`, r = `nil` | `<i>` | `<i>+ck<id>` | `panic:idx` | `panic:nil`;
         `err:provision` if the policy is rejected; `starved` if the draws run out; `bad-op` if malformed.
 -/
 import CaddyModel.C08.Model
@@ -129,7 +129,6 @@ def showRes : Res × List Nat → String
   | (.none, _) => "nil"
   | (.sel i, cks) => cks.foldl (fun s c => s ++ "+ck" ++ toString c) (toString i)
   | (.panicIdx, _) => "panic:idx"
-  | (.panicDiv, _) => "panic:div"
   | (.panicNil, _) => "panic:nil"
   | (.starved, _) => "starved"
 
